@@ -22,7 +22,7 @@ fn main() {
                 std::process::exit(2)
             });
             let tier = Tier::parse(&args[3]).unwrap_or_else(|| usage());
-            let code = run_parent(&def.meta, tier, def.nshards);
+            let code = run_parent(&def.meta, tier, def.nshards, def.extra_thorough().is_some());
             std::process::exit(code);
         }
         "shard" => {
@@ -46,7 +46,14 @@ fn main() {
                 out_path: Some(PathBuf::from(&args[6])),
             };
             let known = Known::load();
-            let out = (def.shard)(&ctx, &known);
+            let out = if shard == nshards {
+                match def.extra_thorough() {
+                    Some(f) => f(&ctx, &known),
+                    None => Default::default(),
+                }
+            } else {
+                (def.shard)(&ctx, &known)
+            };
             std::fs::write(&args[6], serde_json::to_string(&out).unwrap()).expect("write shard result");
         }
         "worker" => {
